@@ -588,6 +588,52 @@ func c05LastBlock(c *core.Ctx) {
 	})
 }
 
+// c05Bootstrap: a fresh store is primed with a block row that marks "everything up to here is processed". That block
+// must be the one BEFORE the configured first block, with the hash fetched for that very number, and only when the
+// store is behind it — otherwise the events of the first block are skipped while the marker is already past them.
+func c05Bootstrap(c *core.Ctx) {
+	const rule = "C05-bootstrap"
+	for _, w := range []struct{ pkg, fn string }{{"l1infotreesync", "New"}, {"bridgesync", "newBridgeSync"}} {
+		fn := c.MustFn(rule, w.pkg, "", w.fn)
+		if fn == nil {
+			continue
+		}
+		label := w.pkg + "." + w.fn + "#marker"
+		sx := core.NewSymx()
+		var pb *ssa.Call
+		core.Instrs(fn, func(i ssa.Instruction) {
+			if cl, ok := i.(*ssa.Call); ok && strings.HasSuffix(core.CallName(i), ".processor).ProcessBlock") {
+				pb = cl
+			}
+		})
+		if pb == nil {
+			c.Hold(rule, label, "the constructor does not prime the store (the first block downloaded is block 1)")
+			continue
+		}
+		blk := sx.Of(pb.Call.Args[2])
+		num, hash := "<unset>", "<unset>"
+		if blk.Op == "lit" {
+			if f := blk.Fields["Num"]; f != nil {
+				num = f.String()
+			}
+			if f := blk.Fields["Hash"]; f != nil {
+				hash = f.String()
+			}
+		}
+		okNum := num == "(initialBlock - const(1))"
+		okHash := strings.Contains(hash, ").BlockByNumber(") && strings.Contains(hash, "(*math/big.Int).SetUint64(alloc:math/big.Int, (initialBlock - const(1)))") && strings.Contains(hash, ".Hash(")
+		// reached only when initialBlock > 0 (no wrap) and the store is behind initialBlock-1
+		pos := core.TermEdges(fn, sx, func(s string, _ *core.Term) bool { return s == "(initialBlock > const(0))" }, true)
+		behind := core.TermEdges(fn, sx, func(s string, _ *core.Term) bool {
+			return strings.Contains(s, ").GetLastProcessedBlock(") && strings.HasSuffix(s, "#0 < (initialBlock - const(1)))")
+		}, true)
+		target := func(x ssa.Instruction) bool { return x == ssa.Instruction(pb) }
+		okGuard := len(pos) > 0 && len(behind) > 0 &&
+			core.ReachableWithout(core.Entry(fn), pos, target) == nil && core.ReachableWithout(core.Entry(fn), behind, target) == nil
+		c.Decide(okNum && okHash && okGuard, rule, label, pb.Pos(), fmt.Sprintf("primed with block initialBlock-1 (Num ← %s), its own hash, only for initialBlock > 0 and lastProcessed < initialBlock-1", num))
+	}
+}
+
 func init() {
 	_ = types.Typ
 	register(&Property{
@@ -599,6 +645,7 @@ func init() {
 			{ID: "C05-group", Floor: 5, Run: c05Group, Text: "[DOM]+[PROV] EVMBlock creation dominated by header.Hash == log.BlockHash; Removed/topic filters"},
 			{ID: "C05-retry", Floor: 4, Run: c05Retry, Text: "[DOM]+flag threading: handleNewBlock returns only after success / cancel / ErrInconsistentState"},
 			{ID: "C05-lastblock", Floor: 3, Run: c05LastBlock, Text: "SQL: the resume point of each store is the greatest recorded block number"},
+			{ID: "C05-bootstrap", Floor: 2, Run: c05Bootstrap, Text: "[PROV]+[DOM] a fresh store is primed with the block before the configured first block"},
 			{ID: "C05-restart", Floor: 3, Run: c05Restart, Text: "[PROV]+[DOM] Download(from = lastProcessed+1); reset after reorg"},
 			{ID: "C05-cursor", Floor: 1, Run: c05Cursor, Text: "[CURSOR] lower bound of each fetch is the loop-carried cursor"},
 			{ID: "C05-range", Floor: 4, Run: c05Range, Text: "[PROV] the requested range is the range asked for, also on hash-mismatch retries; filter query fields"},
